@@ -1,2 +1,49 @@
-From Coq Require Import ZArith List.
-From BT Require Import Model.RTree.
+(* C08 -- concurrent transactions merge, serialize or conflict.
+   Proved here: the read/write footprint on which optimistic concurrency
+   control rests -- every write declares each interior node it descended
+   through as a read dependency (also when it ends in KeyError), pure reads
+   declare nothing and change nothing; what a write changes is announced (the
+   footprint theorems of C04) and a leaf conflict is resolved exactly (C07).
+   The outcome statement itself (second commit conflicts, or the stored tree is
+   sound with serial or disjointly merged contents) is checked by the harness
+   on pairs of transactions in both commit orders; it is not proved (see
+   DESIGN.md). *)
+From Coq Require Import ZArith List Bool.
+From BT Require Import Model.RTree Model.TreeSpec Model.TreeRun Model.Persist Model.PersistSpec Proofs.SyncProofs.
+Import ListNotations.
+Open Scope Z_scope.
+
+Theorem C08_writes_declare_reads_set :
+  forall (V : Type) (veq : V -> V -> bool) (vs : bool) (ml mi fresh : nat) (t : tree V) (k : Z) (v : V) (ifunset : bool) (i : nat),
+  is_leaf V t = false ->
+  In i (path_ids V t k) -> In (ERead i) (s_ev (tset V veq vs ml mi fresh t k v ifunset)).
+Proof. exact SyncProofs.set_declares_reads. Qed.
+Print Assumptions C08_writes_declare_reads_set.
+
+Theorem C08_writes_declare_reads_del :
+  forall (V : Type) (t : tree V) (k : Z) (i : nat),
+  In i (path_ids V t k) ->
+  match tdel V t k with
+  | Some r => In (ERead i) (d_ev r)
+  | None => In (ERead i) (read_path V t k)
+  end.
+Proof. exact SyncProofs.del_declares_reads. Qed.
+Print Assumptions C08_writes_declare_reads_del.
+
+(* lookups, range queries, iteration, len, bool, isdisjoint: no event, no change *)
+Definition is_read (c : call) : bool :=
+  match c with
+  | CGet _ | CGetD _ _ | CItem _ | CIn _ | CHasKey _ | CLen | CBool | CKeys | CItems | CIsdisjoint _ => true
+  | _ => false
+  end.
+Theorem C08_reads_declare_nothing :
+  forall (vsame isC : bool) (ml mi : nat) (s : st) (c : call),
+  is_read c = true -> fst (step vsame isC ml mi s c) = s.
+Proof. exact SyncProofs.reads_are_silent. Qed.
+Print Assumptions C08_reads_declare_nothing.
+
+Example C08_example :
+  let t := Node 0%nat [(0, Node 1%nat [(0, Leaf 2%nat [(1, 0)]); (3, Leaf 3%nat [(3, 0)])]); (5, Node 4%nat [(5, Leaf 5%nat [(5, 0)])])] in
+  path_ids Z t 3 = [0%nat; 1%nat] /\
+  s_ev (tset Z Z.eqb false 2 2 6 t 3 9 false) = [ERead 0; ERead 1; EChanged 3].
+Proof. vm_compute. split; reflexivity. Qed.
